@@ -22,7 +22,7 @@ import (
 // that seeded changes never touch /repo and never overwrite committed evidence.
 var (
 	repoDir  = envOr("VERIF_REPO", "/repo")
-	verifDir = "/verif"
+	verifDir = envOr("VERIF_DIR", "/verif")
 	outDir   = envOr("VERIF_OUT", "/verif")
 )
 
